@@ -130,6 +130,9 @@ HistNext ==
     \/ HistDo("reduce", None, NoAff, Reduce(h))
     \/ HistDo("neg", None, NoAff, NegTree(h))
     \/ \E a \in HistAff : HistDo("apply_func", None, a, ApplyFunc(h, a))
+    \* replace_node on the first non-root node in index order (the harness applies the same rule)
+    \/ (\E a \in {Aff(<<<<2>>, <<1>>>>, <<3, -1>>)} : Cardinality(Occ(h)) > 1 /\
+            HistDo("replace_node", None, a, ReplaceNode(h, CHOOSE i \in Occ(h) \ {h.root} : \A j \in Occ(h) \ {h.root} : i <= j, a)))
     \/ \E x \in HistCompose : HistDo("compose", x, NoAff, Compose(h, BuildTree(x, K, "dfs")))
     \/ \E x \in HistCompose : HistDo("compose_prune", x, NoAff, ComposePruned(h, BuildTree(x, K, "dfs")))
     \/ \E x \in HistArith : HistDo("add", x, NoAff, Arith("add", h, BuildTree(x, K, "dfs")))
@@ -216,6 +219,7 @@ InHist == MODE = "history" /\ stage \in {"h1", "h2", "h3", "h4"}
 HistExpected ==
     CASE op \in {"eliminate", "reduce"} -> PF0
       [] op = "neg" -> {[cons |-> p.cons, out |-> NegOut(p.out)] : p \in PF0}
+      [] op = "replace_node" -> PH0           \* meaning checked by the validator (ReplacePieces); here only well-formedness and caches
       [] op = "apply_func" -> ComposePieces(PF0, {[cons |-> {}, out |-> Out(aff.m, aff.b, aff.q)]})
       [] op \in {"compose", "compose_prune"} -> ComposePieces(PF0, PG0)
       [] op \in {"add", "sub"} -> LiftPieces(op, PF0, PG0)
